@@ -16,8 +16,8 @@ def weight_mask(N, weight, nsymbols=2):
 
     if not hasattr(weight, "__len__"):
         weight = [weight]
-    weight = torch.tensor(weight).long()
-    assert weight[0] >= 0
+    weight = torch.unique(torch.tensor(weight).long())  # A weight listed twice must not count twice
+    assert (weight >= 0).all()
     t = tn.weight_one_hot(N, int(max(weight) + 1), nsymbols)
     t.cores[-1] = torch.sum(t.cores[-1][:, :, weight], dim=2, keepdim=True)
     return t
